@@ -255,8 +255,10 @@ class Gen:
                 h.append(["started", r.randrange(4)])
             elif q < 0.72:
                 h.append(["finished", r.randrange(4)])
-            elif q < 0.84:
+            elif q < 0.80:
                 h.append(["late_started", r.randrange(4)])
+            elif q < 0.84:
+                h.append(["started_after_finished", r.randrange(4)])   # Started for an action whose Finished was delivered
             elif q < 0.89:
                 h.append(["late_finished", r.randrange(4)])
             elif q < 0.93:
@@ -350,6 +352,10 @@ SEEDS = [
      [["ev", 0], ["ev", 3], ["ev", 2], ["ev", 3]]),
     ("flow main\n  start f1\n  start f3 as $r1\n  start f4\n  match E1()\n  send $r1.Stop()\n  match Never()\n\nflow f1\n  activate f5\n  match E2()\n\nflow f3\n  start f4 as $r2\n  match E0()\n  send $r2.Stop()\n\nflow f4\n  match E0()\n  activate f5\n  match E1()\n\nflow f5\n  match E3()\n",
      [["ev", 0], ["ev", 3], ["ev", 2], ["ev", 3]]),
+    # Finished arriving EARLY, then a delayed Started of the same (finished) action, then the owner ends /
+    # its scope ends: no Stop for a finished action
+    ("flow main\n  start f1\n  match Never()\n\nflow f1\n  start UtteranceBotAction(script=\"a\")\n  when TimerBotAction(timer_name=\"t\", duration=1.0)\n    match E1()\n  or when E0()\n    match E1()\n  match E2()\n",
+     [["finished", 0], ["started_after_finished", 0], ["finished", 1], ["started_after_finished", 1], ["ev", 0], ["ev", 1], ["ev", 2]]),
     # ... or is stopped by its parent
     ("flow main\n  start f1 as $r1\n  match E1()\n  send $r1.Stop()\n  match Never()\n\nflow f1\n  start UtteranceBotAction(script=\"a\") as $a1\n  start f2\n  match E0()\n  send $a1.Stop()\n  match Never()\n\nflow f2\n  await GestureBotAction(gesture=\"g\")\n",
      [["ev", 0], ["ev", 1], ["finished", 0]]),
@@ -940,6 +946,13 @@ def run_one(sm, fl, U, src, history, policy):
                 ev = dict(prev_ev)
             elif item[0] == "finished_unknown":
                 ev = {"type": "UtteranceBotActionFinished", "action_uid": "unknown-uid", "is_success": True}
+            elif item[0] == "started_after_finished" and orc.finished_delivered:
+                fins = [a for a in orc.started if a in orc.finished_delivered]
+                if fins:
+                    a = fins[item[1] % len(fins)]
+                    ev = {"type": orc.start_name[a] + "Started", "action_uid": a}
+                else:
+                    ev = {"type": f"E{item[1] % NEV}"}
             elif item[0] in ("late_started", "late_finished") and stopped:
                 a = stopped[item[1] % len(stopped)]
                 suffix = "Started" if item[0] == "late_started" else "Finished"
